@@ -20,6 +20,7 @@ from . import common, gen_dt
 
 ID = "C02"
 BUDGET = {"quick": 40.0, "thorough": 600.0}
+RUNS = {"quick": 32000}
 
 LOCAL_ZONES = ["Europe/Paris", "America/New_York", "Australia/Lord_Howe", "America/Sao_Paulo", "Asia/Tokyo",
                "Pacific/Kiritimati", "America/St_Johns", "Asia/Kathmandu", "Europe/London",
@@ -238,6 +239,10 @@ def extend_candidates(run, rec, op, cands):
     mocks = cands["mock_tz"]
     loc = [m for m in mocks if m is not None]
     relaxed = bool(rec.get("faults"))
+    # a configuration write that overlaps the call is itself an environment fault
+    # (file deleted between isfile() and open(), content replaced between two reads)
+    if any(s[0] > 0 and s[0] < rec["ret"] and s[1] > rec["inv"] for s in run.fslog):
+        relaxed = True
     if None in mocks:
         zones, may_raise = admissible_local(run, rec)
         relaxed |= may_raise
